@@ -2,12 +2,14 @@
 from vlib import *
 from props.common import *
 from props import refmodel as R
+import re
 
 ID = 'C03'
 COQ_PROPS = ['Props/C03.v']
 COQ_IMPORTS = ['Prims', 'CaseLib', 'BitsCore', 'Mutators', 'Search']
 RULE = ('programs of 1..12 mutators on one BitArray/BitStream, state compared after every step and after every raising call; arguments: positions and ranges in, at and beyond '
         'the ends, negative indices, steps, empty operands, self as operand, integer values at the range limits; small contents exhaustively for single steps in thorough; '
+        'byteswap with struct-style string patterns (every code x no prefix / @ = < > x counts incl. zero, leading zeros, two digits; mixed patterns; several repetitions, unaligned start, partial last pattern; strings outside the grammar refused); '
         'non-trivial = the step changes the content or raises; distinct by (content, op, arguments)')
 ASSUMPTIONS = ['bitarray slice assignment/deletion behave as Prims.ba_setslice/ba_delslice (exercised by these cases)', 'msb0 mode (lsb0 is C12)',
                'integer assignment to a slice with step -1 is left unspecified by the oracle (the implementation sizes the integer by [start:stop])']
@@ -30,6 +32,72 @@ def ropt_range(rng, n):
 def rslice(rng, n):
     f = lambda: rng.choice([None, None, rng.randrange(-n - 2, n + 3)])
     return [f(), f(), rng.choice([None, None, 1, 1, -1, 2, -2, 3, 0])]
+
+# ---- byteswap with a struct-style STRING pattern -------------------------------------------------------------------------------------------
+# Documented grammar: an optional byte-order character (one of < > @ =, "ignored as it's byteswapping anyway"), then one or more struct codes, each with an
+# optional decimal count. The byte width of a code is struct's STANDARD size (struct documentation, table "Format characters", column "Standard size"),
+# whatever the byte-order character and whatever the platform's C types are.
+STD_SIZE = {'b': 1, 'B': 1, 'h': 2, 'H': 2, 'e': 2, 'i': 4, 'I': 4, 'l': 4, 'L': 4, 'f': 4, 'q': 8, 'Q': 8, 'd': 8}
+BS_CODES = 'bBhHlLiIqQefd'
+BS_PREFIXES = ['', '@', '=', '<', '>']
+# strings outside the grammar (struct codes the library does not list, misplaced / doubled byte-order characters, counts without a code, token-list syntax):
+# byteswap must refuse them and leave the content alone
+BS_INVALID = ['', 'x', 'hx', 'xh', '<', '@', '<<h', '@@l', '=<l', 'h<', 'l@', '2', 'h2', '2h2', '-1h', '+2h', '2.0h', 'p', 's', '4s', 'c', '?', 'n', 'N', 'P', '!h', '!l',
+              'H,h', 'l,l', '2*h', '2*l', '(l)', 'l l', 'uint8', 'int:32', '0x1', 'hLz', 'Lh;']
+
+def rand_swapfmt(rng, must=None, pre=None):
+    """a struct-style byteswap pattern inside the documented grammar: every code, every spelling of the byte-order character, every spelling of a count
+    (absent, 1, several, leading zeros, two digits, zero), one to four items"""
+    def item(ch):
+        r = rng.random()
+        if r < 0.45: return ch
+        if r < 0.80: return str(rng.choice([1, 2, 2, 3, 4])) + ch
+        if r < 0.88: return '0' + str(rng.choice([1, 2, 3])) + ch        # leading zero
+        if r < 0.94: return str(rng.choice([10, 11, 12, 16])) + ch        # two digits
+        return rng.choice(['0', '00']) + ch                               # a count of zero: no item at all
+    k = rng.choice([1, 1, 2, 2, 3, 4])
+    codes = [rng.choice(BS_CODES) for _ in range(k)]
+    if must: codes[rng.randrange(k)] = must
+    if rng.random() < 0.15: codes = [codes[0]] * rng.choice([2, 3])       # the same letter written out several times
+    return (rng.choice(BS_PREFIXES) if pre is None else pre) + ''.join(item(ch) for ch in codes)
+
+def swapfmt_sizes(fmt):
+    """byte widths of the items of a byteswap pattern string, or None when the string is outside the documented grammar"""
+    m = re.fullmatch(r'[<>@=]?((?:[0-9]*[bBhHlLiIqQefd])+)', fmt)
+    if not m: return None
+    out = []
+    for cnt, ch in re.findall(r'([0-9]*)([bBhHlLiIqQefd])', m.group(1)): out += [STD_SIZE[ch]] * (int(cnt) if cnt else 1)
+    return out
+
+def swap_program(rng, fmt, tier):
+    """a program around byteswap(fmt, ...): contents long enough for several repetitions of the pattern, a start that need not be byte aligned, bits after the
+    last whole pattern (from one bit up to one bit short of another pattern), every way of giving the range; then the same item sizes again under another
+    spelling (other byte-order character, counts written out), which undoes the first call when it covers the same patterns"""
+    sizes = swapfmt_sizes(fmt) or [rng.choice([1, 2, 4])]
+    tot = 8 * sum(sizes)
+    npat = rng.choice([1, 1, 2, 2, 3, 5, 0])
+    lead = rng.choice([0, 0, 0, 1, 3, 7, 8, 11, 16])
+    tail = rng.choice([0, 0, 1, 5, 8, 32, max(tot - 32, 0), max(tot - 8, 0), max(tot - 1, 0), tot // 2])
+    n = lead + npat * tot + tail
+    if n > 2400: npat = 1; n = lead + tot + tail
+    bits = rand_bits(rng, n, rng.choice(['rand', 'rand', 'rand', None]))
+    body_end = lead + npat * tot
+    start = rng.choice([lead, lead, lead - n if n else 0, None if lead == 0 else lead, 0, rng.randrange(0, n + 1)])
+    if lead == 0 and rng.random() < 0.6: start = None
+    end = rng.choice([None, None, n, body_end, body_end, body_end - n if body_end < n else None, body_end - 1, body_end + 7, n + 1, rng.randrange(0, n + 1)])
+    steps = []
+    if rng.random() < 0.25: steps.append(gen_step(rng, max(n, 4), tier, rng.choice(['rol', 'invert', 'reverse', 'set', 'append', 'ilshift', 'byteswap'])))
+    first = {'op': 'byteswap', 'fmt': fmt, 'start': start, 'end': end, 'repeat': rng.random() < 0.7, 'args': rng.choice(['pos', 'kw', 'kw'])}
+    steps.append(first)
+    r = rng.random()
+    if r < 0.45 and swapfmt_sizes(fmt) is not None:
+        body = fmt.lstrip('<>@=')
+        again = dict(first, fmt=rng.choice(BS_PREFIXES) + body)
+        if rng.random() < 0.4: again['fmt'] = list(sizes)            # the documented equivalent: an iterable of the byte widths
+        steps.append(again)
+    elif r < 0.6:
+        steps.append(dict(first, fmt=rand_swapfmt(rng), repeat=rng.random() < 0.5))
+    return {'op': 'program', 'cls': rng.choice(MUTABLE), 'bits': bits, 'steps': steps, 'lsb0': rng.random() < 0.2}
 
 OVERLAPPING = ['11', '00', '111', '000', '101', '010', '1010', '0101', '1001', '11011', '0000', '1111']
 
@@ -66,7 +134,11 @@ def gen_step(rng, n, tier, op=None, data=None):
         s.update(pos=pos, v=rng.choice([0, 1, True, False, 5]))
     elif op == 'byteswap':
         a, b = ropt_range(rng, n)
-        s.update(fmt=rng.choice([None, 0, 1, 2, 3, -1, [1, 2], [2, 1, 1], [0, 1], [], 'h', '2h', '<hb', 'q', '>2bh', {'iter': [2, 1]}, {'iter': [1]}, {'iter': [2, 2]}]), start=a, end=b, repeat=rng.random() < 0.6)
+        fmt = rng.choice([None, 0, 1, 2, 3, -1, [1, 2], [2, 1, 1], [0, 1], [], 'h', '2h', '<hb', 'q', '>2bh', {'iter': [2, 1]}, {'iter': [1]}, {'iter': [2, 2]}])
+        r = rng.random()
+        if r < 0.35: fmt = rand_swapfmt(rng)
+        elif r < 0.40: fmt = rng.choice(BS_INVALID)
+        s.update(fmt=fmt, start=a, end=b, repeat=rng.random() < 0.6)
     elif op in ('ilshift', 'irshift'):
         s.update(n=rng.choice([-1, 0, 1, 3, n - 1, n, n + 1, 2 * n + 5]))
     elif op == 'imul':
@@ -114,6 +186,18 @@ def gen_cases(rng, tier):
                 for st in (1, 2, -1, -2):
                     op = 'set' if (a + b + st) % 2 else 'invert'
                     yield {'op': 'program', 'cls': 'BitArray', 'bits': bits, 'steps': [{'op': op, 'pos': {'range': [a, b, st]}, 'v': (a + b) % 2}]}
+    # byteswap with struct-style string patterns: every code x every spelling of the byte-order character (none @ = < >) x the code alone, with a count, inside
+    # a mixed pattern; then random patterns; then strings outside the grammar (refused, content kept)
+    for code in BS_CODES:
+        for pre in BS_PREFIXES:
+            shapes = [pre + code, pre + str(rng.choice([2, 3])) + code, rand_swapfmt(rng, code, pre)]
+            if tier == 'thorough': shapes += [rand_swapfmt(rng, code, pre) for _ in range(6)]
+            for fmt in shapes: yield swap_program(rng, fmt, tier)
+    for _ in range(120 if tier == 'quick' else 3000):
+        yield swap_program(rng, rand_swapfmt(rng), tier)
+    for bad in BS_INVALID:
+        for _ in range(1 if tier == 'quick' else 4):
+            yield swap_program(rng, bad, tier)
     if tier == 'thorough':
         for n in range(0, 6):
             for v in range(1 << n):
@@ -126,12 +210,12 @@ def kind(c): return 'program'
 def mkkey(key):
     return slice(*key) if isinstance(key, list) else key
 
-BS_SIZES = {'h': [2], '2h': [2, 2], '<hb': [2, 1], 'q': [8], '>2bh': [1, 1, 2]}
 def fmt_sizes(fmt, width_bits):
+    """byte widths meant by a byteswap format (None: a string outside the documented grammar)"""
     if isinstance(fmt, dict): return list(fmt['iter'])          # a one-shot iterator of byte sizes
     if fmt is None or fmt == 0: return [width_bits // 8]
     if isinstance(fmt, int): return [fmt]
-    if isinstance(fmt, str): return BS_SIZES[fmt]
+    if isinstance(fmt, str): return swapfmt_sizes(fmt)
     return list(fmt)
 
 def apply_impl(s, st):
@@ -157,7 +241,13 @@ def apply_impl(s, st):
         p = st['pos']
         if isinstance(p, dict): p = p['list'] if 'list' in p else range(*p['range'])
         return s.set(st['v'], p) if op == 'set' else s.invert(p)
-    if op == 'byteswap': return s.byteswap(iter(st['fmt']['iter']) if isinstance(st['fmt'], dict) else st['fmt'], st['start'], st['end'], st['repeat'])
+    if op == 'byteswap':
+        fmt = iter(st['fmt']['iter']) if isinstance(st['fmt'], dict) else st['fmt']
+        if st.get('args') == 'kw':          # the same call with keywords, defaults left out
+            kw = {k: st[k] for k in ('start', 'end') if st[k] is not None}
+            if not st['repeat']: kw['repeat'] = False
+            return s.byteswap(fmt, **kw)
+        return s.byteswap(fmt, st['start'], st['end'], st['repeat'])
     if op == 'ilshift': s <<= st['n']; return None
     if op == 'irshift': s >>= st['n']; return None
     if op == 'imul': s *= st['n']; return None
@@ -215,6 +305,7 @@ def ref_step(d, st):
         r0 = R.call(R.norm_range, len(d), st['start'], st['end'])
         if r0[0] == 'err': return (d, None, 'ValueError')
         sizes = fmt_sizes(fmt, r0[1][1] - r0[1][0])
+        if sizes is None: return (d, None, 'ValueError')          # a string that is not a struct-style pattern
         r = R.call(R.byteswap, d, sizes, st['start'], st['end'], st['repeat'])
         return (r[1][0], r[1][1], None) if r[0] == 'ok' else (d, None, r[1])
     if op == 'ilshift': return w(R.lshift, d, st['n'])
@@ -323,6 +414,7 @@ def coq_step(st, before, r, after, lsb0=False):
         if r0[0] == 'err' or (isinstance(fmt, int) and fmt < 0):
             return None   # argument validation order is checked by the oracle only
         sizes = fmt_sizes(fmt, r0[1][1] - r0[1][0])
+        if sizes is None: return None   # refused format strings are judged by the oracle only
         rr = ('ok', (after, r[1])) if r[0] == 'ok' else ('err', r[1])
         return (f"res_eqb (pair_eqb bits_eqb Z.eqb) (ba_byteswap false {D} {clist(sizes, cz)} {cob(st['start'])} {cob(st['end'])} {cbool(st['repeat'])}) "
                 f"{cres(rr, lambda v: cpair(cbits(v[0]), cz(v[1])))}")
@@ -343,7 +435,7 @@ def coq_check(c, obs):
     return ' && '.join(terms) if terms else None
 
 def search(seeds, rng):
-    pool = list(seeds) + list(gen_cases(rng, 'thorough'))[:8000]
+    pool = list(seeds) + list(gen_cases(rng, 'quick')) + list(gen_cases(rng, 'thorough'))[:8000]      # the quick tier holds every class of case, the thorough prefix the volume
     for c in pool:
         try: obs = run_impl(c)
         finally: reset_options()
